@@ -35,6 +35,13 @@ pub trait HistMonitor {
     fn owns_panic(&self, _op: &Op) -> bool {
         false
     }
+    /// A panic of this read-only call leaves the graph as it was; the monitor looks at that state
+    /// itself with guarded calls and names the call that panics (C18: to_xml/to_dot; C20: Debug,
+    /// inspect, v_print), so the panic of the compound call is neither reported wholesale nor does
+    /// it end the history.
+    fn examines_panic_itself(&self, _op: &Op) -> bool {
+        false
+    }
     /// Structural mismatch while adopting a merge/script into the model is this monitor's violation.
     fn owns_adopt_error(&self) -> bool {
         false
@@ -322,11 +329,14 @@ impl Runner<'_> {
             if let Some(p) = &o.panic {
                 if mon.owns_panic(&op) {
                     violation = Some((format!("legal call {} panicked: {p}", op.show()), at));
+                    break;
+                } else if mon.examines_panic_itself(&op) {
+                    self.c.inc("history.read-only-compound-call-panicked(examined-by-the-monitor)");
                 } else {
                     st.foreign_panics += 1;
                     self.c.inc("history.cut-by-foreign-panic");
+                    break;
                 }
-                break;
             }
             // 2. the monitor's own judgement
             let mut ctx = Ctx { c: self.c, rng: &mut rng, labels: labels.clone() };
